@@ -19,6 +19,9 @@ theories/Sizing.vos theories/Sizing.vok theories/Sizing.required_vos: theories/S
 theories/Alloc.vo theories/Alloc.glob theories/Alloc.v.beautified theories/Alloc.required_vo: theories/Alloc.v theories/Base.vo theories/Vu64.vo gen/Consts.vo theories/Sizing.vo
 theories/Alloc.vio: theories/Alloc.v theories/Base.vio theories/Vu64.vio gen/Consts.vio theories/Sizing.vio
 theories/Alloc.vos theories/Alloc.vok theories/Alloc.required_vos: theories/Alloc.v theories/Base.vos theories/Vu64.vos gen/Consts.vos theories/Sizing.vos
+theories/AllocInv.vo theories/AllocInv.glob theories/AllocInv.v.beautified theories/AllocInv.required_vo: theories/AllocInv.v theories/Base.vo theories/Vu64.vo gen/Consts.vo theories/Sizing.vo theories/Alloc.vo
+theories/AllocInv.vio: theories/AllocInv.v theories/Base.vio theories/Vu64.vio gen/Consts.vio theories/Sizing.vio theories/Alloc.vio
+theories/AllocInv.vos theories/AllocInv.vok theories/AllocInv.required_vos: theories/AllocInv.v theories/Base.vos theories/Vu64.vos gen/Consts.vos theories/Sizing.vos theories/Alloc.vos
 theories/Htx.vo theories/Htx.glob theories/Htx.v.beautified theories/Htx.required_vo: theories/Htx.v theories/Base.vo gen/Consts.vo
 theories/Htx.vio: theories/Htx.v theories/Base.vio gen/Consts.vio
 theories/Htx.vos theories/Htx.vok theories/Htx.required_vos: theories/Htx.v theories/Base.vos gen/Consts.vos
